@@ -52,7 +52,7 @@ func c19Prop(rec *ev.Recorder) func(t *rapid.T) {
 			g := &gen.FaultGen{T: t}
 			fs := g.Session()
 			big := -1
-			if rapid.IntRange(0, 5).Draw(t, "oversized") == 0 {
+			if rapid.IntRange(0, 19).Draw(t, "oversized") == 0 {
 				// a statement refused by the compiler in the middle of the session
 				big = rapid.IntRange(len(gen.FaultPrelude), len(fs.Real)-1).Draw(t, "at")
 			}
